@@ -77,6 +77,10 @@ CHECKS = {
    tech="TLA+ spec AtomicWrite.tla (writer steps with crash/fail at every point; TLC exhaustive); the real process's system calls (strace) validated by TLC as a behaviour of the specification; enumeration of faults (write cut at every byte via RLIMIT_FSIZE, error/SIGKILL injected per system call) with TLC checking each outcome",
    text="TLC explores every placement of a crash or failed step in the writer's step sequence and checks the visible content is always old or new and success only reported with the new content (the in-place writer is the defect switch). For the notebook (save, save-pipeline; absent/empty/1/25-entry) and the history (every search; absent/1/40-entry) the real binary's system calls on the file and its directory are recorded and validated against the specification, then the write is cut at every prefix length and every write/openat/rename/fsync/close call is made to fail or the process killed there; TLC checks each outcome: content old or new, loadable, no success message without effect.",
    note="Needs strace (ptrace) and RLIMIT_FSIZE; quick tier tries every 9th prefix length."),
+ "C10": dict(cat="model_checking", ref="DESIGN.md section 5, C10",
+   tech="TLA+ spec Totality.tla: scenario classes (file shape x text feature x query x options x entry point) and the call/return protocol with the loader's classification table; TLC enumerates the cross product; each scenario executed on the real loader and entry points under a deadline; TLC validates every recorded outcome",
+   text="TLC enumerates all 78,400 combinations of file shape (missing, empty, scalar, map, list of scalars, wrong-typed fields, deep nesting, aliases, damaged, binary, huge, directory, valid...), text feature (NUL, invalid UTF-8, 1000-character fields, punctuation only, empty, Unicode), query class, option class (extreme limits/thresholds/caps, NaN/Inf/negative boosts, odd platform lists) and entry point (universal, legacy searches, cached, monitored, suggestions, recovery); a covering sample (all in thorough) is executed on the real code with panic recovery and a deadline and TLC checks that every load outcome is the one the classification allows and every call returned.",
+   note="Classes, not bytes: the weakest fit of the family, as DESIGN section 6 says; one representative per class."),
 }
 NOT_APPLICABLE = {}
 
